@@ -10,23 +10,23 @@ CHECKS = {
          "edwards25519 lawfulness assumed (tested differentially); the point encode/decode round-trip of the concrete curve is tested, not proved"),
  "C03": ("Lean theorems for every lawful curve: x_j*G = X_j, public points on one degree-t polynomial with constant term PK = sum u_i*G, any t+1 interpolate (weights and reconstruct), and Feldman acceptance alone implies consistency for arbitrary dealt values; tie = whole key-generation runs (both curves, all strategies) with the C03 clauses asserted on every party's save data",
          "curve lawfulness assumed for the concrete curves; Paillier/ring-Pedersen arrays are compared across parties by direct assertion"),
- "C04": ("Lean theorems: resharing preserves the secret and the public key, the V_0 = PK check is sound for arbitrary old-committee input, chains preserve the key; engine-level ordering is asserted after EVERY delivery of every run (every prefix is a cut point): no old share erased and no new key emitted before all new members acknowledged; tie = whole resharing runs (both curves, proofs on/off, pre-Start, chains, sign-after)",
-         "the two-committee engine is not table-modelled in Lean (run-level invariants only); ECDSA resharing verifies the new members' factorisation proofs after the acknowledgements (R1, see DESIGN.md)"),
- "C05": ("Lean theorems about the round-level blame models (EdDSA keygen round 3, EdDSA signing round 3): exactly the failing peers are named, never the party itself or a peer that sent nothing; an altered value covered by the commitment, the Schnorr proof or the Feldman check is blamed; honest peers pass (from C10/C15/C16), hence a single deviator is named exactly; the rounds return; accepted shares are consistent; plus the no-bad-output facts of C01/C03/C16; tie = fault injection over all six protocols (one alteration per message field found by protobuf reflection, every position, whole-message replay, acknowledgement forgery in resharing) in child processes, with the two modelled rounds re-judged by the model from the delivered fields",
-         "the ECDSA rounds are not modelled as whole round functions (their verifiers are): for them blame and output validity are direct assertions on injected runs; soundness against adaptive provers is cryptographic and not claimed; after a party has reported an error the caller must stop feeding it messages (the library does not latch failures)"),
- "C06": ("Lean theorems that every modelled verifier/decoder returns (never `panic`) for all field values, with pre-fix crash witnesses; model tied to the Go verifiers by verdict agreement on boundary grids over every field of every proof system",
-         "function-level entry points (exported verifiers, decoders); protocol-level injection is added by the protocol harness when present; wire codec (protobuf) not modelled"),
- "C07": ("Lean theorems about the round-engine model for every table: fixpoint after each update, local confluence, idempotent duplicates, schedule independence up to permutation and duplication, pre-Start = post-Start delivery, ends exactly once, and no_deadlock for the closed n-party system (all-to-all, disciplined tables; hypotheses decided for the four library tables); tie = the behaviour of every party after each event of whole runs under 9 delivery strategies and exhaustive interleavings (EdDSA n=2) equals the model's trace",
-         "resharing (two committees) is covered by the run-level assertions and the pre-Start witness only, not by the table model; payload validity is abstracted at this level"),
+ "C04": ("Lean theorems: resharing preserves the secret and the public key, the V_0 = PK check is sound for arbitrary old-committee input, chains preserve the key; the two-committee round engine (Engine2, resharing tables of both curves): over every reachable state of the closed old+new system (any order, duplicates, pre-Start) no old member ends and no new member saves before every new member has acknowledged, an acknowledgement follows all shares, a cut run leaves every old member intact, schedule independence, pre-Start = post-Start, no deadlock; the same ordering is asserted after EVERY delivery of every run (every prefix is a cut point); tie = whole resharing runs (both curves, proofs on/off, pre-Start, one slow packet per message type, chains, sign-after) with every member's engine trace compared with Engine2",
+         "the cryptographic bodies of the resharing rounds are the C03/C10-C15 models plus run-level assertions; ECDSA resharing verifies the new members' factorisation proofs after the acknowledgements (R1, see DESIGN.md)"),
+ "C05": ("Lean theorems about the round-level blame models (EdDSA keygen round 3, EdDSA signing round 3, ECDSA keygen rounds 2 and 3): exactly the failing peers are named, never the party itself or a peer that sent nothing; an altered value covered by the commitment, the Schnorr proof or the Feldman check is blamed; honest peers pass (from C10/C15/C16), hence a single deviator is named exactly; the rounds return; accepted shares are consistent; plus the no-bad-output facts of C01/C03/C16; tie = fault injection over all six protocols (one alteration per message field found by protobuf reflection, every position, whole-message replay, acknowledgement forgery in resharing) in child processes, with the two modelled rounds re-judged by the model from the delivered fields",
+         "of the ECDSA rounds only key generation rounds 2-3 are modelled as round functions (all verifiers are): for the others blame and output validity are direct assertions on injected runs; soundness against adaptive provers is cryptographic and not claimed; after a party has reported an error the caller must stop feeding it messages (the library does not latch failures)"),
+ "C06": ("Lean theorems that every modelled verifier/decoder returns (never `panic`) for all field values, with pre-fix crash witnesses, and the modelled round bodies return; model tied to the Go verifiers by verdict agreement on boundary grids over every field of every proof system; protocol level: boundary values in every message field and junk (random/bit-flipped/truncated bytes, wrong/out-of-range/unknown senders, flipped flags, foreign messages) through UpdateFromBytes in whole runs of all six protocols, in child processes under watchdogs, also with a single verifier worker",
+         "the wire codec (protobuf) is not modelled: for undecodable bytes the only oracle is 'returns, process alive'; hangs are detected by watchdogs (runtime observation)"),
+ "C07": ("Lean theorems about the round-engine model for every table: fixpoint after each update, local confluence, idempotent duplicates, schedule independence up to permutation and duplication, pre-Start = post-Start delivery, ends exactly once, and no_deadlock for the closed n-party system (all-to-all, disciplined tables; hypotheses decided for the four library tables); tie = the behaviour of every party after each event of whole runs under 9 delivery strategies, one slow packet per message type and exhaustive interleavings (EdDSA n=2) equals the model's trace; resharing runs with one slow packet per message type against Engine2",
+         "the resharing theorems are C04's (Props/C04b); payload validity is abstracted at this level"),
  "C08": ("Lean theorems: emissions are exactly the canonical per-round prefix once each in order, a round advances only when every requirement is stored with the right flag, wrong-channel copies never advance a round, WaitingFor = exact awaited set for tables without early-return rounds (with the pre-repair over-report witness); tables, routing and constants regenerated from the running code are proved equal to the model's by decide; tie = engine traces with flag-flipped copies injected before/instead/after, routing and wire round-trip assertions on every emitted message",
          "secrecy of message contents is not modelled (only routing discipline); protobuf codec not modelled"),
- "C09": ("Lean theorems: critical sections serialise (any interleaving of k callers' deliveries equals the sequential delivery of the concatenation), queries are transparent and exact, end emitted once; runtime part: whole protocol runs with every Start/Update/WaitingFor call in its own goroutine under the Go race detector",
+ "C09": ("Lean theorems: critical sections serialise (any interleaving of k callers' deliveries equals the sequential delivery of the concatenation), queries are transparent and exact, end emitted once; runtime part: whole protocol runs with every Start/Update/WaitingFor call in its own goroutine under the Go race detector, plus gated runs releasing pre-Start deliveries at the same instant as Start()",
          "the Go memory model and scheduler are runtime: the race detector observes only the executed interleavings (partial); the lock discipline itself is not extracted from the source"),
  "C10": ("Lean completeness theorems for the proof systems under explicit good-coin predicates; tie = cross-verification: Go-made proofs judged by the Lean verifiers and Lean-made proofs judged by the Go verifiers, plus wire round-trips",
          "completeness is proved for the model; a negligible set of coins (explicit predicate) makes honest proofs fail"),
  "C11": ("Lean theorems: for every verifier, acceptance implies every guard and every verification equation (ranges, gcds, small-prime table, Jacobi, bit lengths, the point relation), plus exact extraction lemmas (Schnorr special soundness, dln both-bits, plaintext/multiplier/mask bounds); tie = both verifiers judge false-statement families produced by the library's provers on bad witnesses and by harness-built transcripts",
          "cryptographic soundness against arbitrary provers is statistical/computational and is not stated; the no-small-factor proof has slack q^4 by design"),
- "C12": ("Lean theorems on challenge pre-image injectivity and response non-malleability; tie = both verifiers judge every substitution and single-component perturbation of accepted proofs",
+ "C12": ("Lean theorems on challenge pre-image injectivity and response non-malleability (incl. the canonical fourth root of the modulus proof: a negated root is rejected, any other accepted root yields a factor); tie = both verifiers judge every substitution, single-component perturbation (+1, -1, random, zero, swap, additive inverse modulo every modulus of the statement) and every commitment/response shift of accepted proofs",
          "collision resistance of SHA-512/256 appears as the alternative conclusion; soundness against adaptive provers not claimed"),
  "C13": ("Lean proof that the MtA exchange of the model (AliceInit, BobMid(WC), AliceEnd(WC) over the Paillier and proof-system models) yields alpha+beta = ab mod q under the no-wrap bound implied by 2048-bit moduli, that shares are produced only behind accepted proof gates, and that altered ciphertexts change the hashed pre-image; tie = whole exchanges run by the library with Alice's last step as an exact op",
          "completeness of the embedded proofs is C10; soundness against adaptive provers not claimed"),
